@@ -376,6 +376,18 @@ theorem heap_patch_failure_restores (o : HOpObj) (h : Heap) (root : Addr) (rank 
   obtain ⟨hl, heq⟩ := patchDoH_failure hr hm hfail
   exact ⟨hl, fun b hb => Heap.get?_eq_of_le hl hb, fun g x n hn => absH_mono hl g x n hn, heq⟩
 
+/-- THE LIST REBUILD WRITES ONE CELL.  `insertListItem` / `removeListItem` run
+    `items := list.Items(); list.Clear(); list.Append(…)…`: executed statement by statement on the
+    heap (`insertListItemStmts`, `removeListItemStmts`: every statement is a builder call on the one
+    list cell, the item NODES are re-appended themselves) they produce exactly the single write of the
+    final item list that `doAddH` / `doRemoveH` perform — no other cell is written, nothing is
+    allocated, no item is copied. -/
+theorem heap_list_rebuild_one_cell (h : Heap) (l : Addr) (xs : List Addr) (hg : h.get? l = some (.list xs))
+    (i : Nat) (v : Addr) :
+    insertListItemStmts h l i v = some (h.write l (.list (xs.take i ++ v :: xs.drop i))) ∧
+    removeListItemStmts h l i = some (h.write l (.list (xs.take i ++ xs.drop (i + 1)))) :=
+  ⟨insertListItemStmts_eq hg i v, removeListItemStmts_eq hg i⟩
+
 /-! ### Non-vacuity and the pre-fix shape (D13)
 
   `pHeap`: 0 nilLeaf · 1 leaf 1 · 2 list [#1, nilLeaf] · 3 {x: #1} · 4 {a: #2, b: #3} (root). -/
